@@ -47,6 +47,9 @@ func deletesFrom(p *core.Prog, ins ssa.Instruction, field string) bool {
 func checkC13(c *core.Ctx) {
 	p := c.P
 	c.Explain = "Structural clauses of IP defragmentation (ip4defrag, ip6defrag): (R13.1) a fragment's payload length is never computed as Length minus a literal (it must come from IHL or len(Payload)), and sibling computations agree; (R13.2) every path that returns a datagram rebuilt from the fragment list first deletes that flow's map entry; (R13.3) the Length stored in the rebuilt IPv4 header depends on the header length; fragmentation fields are cleared; (R13.4) rebuilding is attempted only when the final fragment was seen and highest == current; (R13.5) in the build loop bytes are appended only on the 'contiguous' or 'overlapping' branch of the offset comparison, the 'hole' branch returns an error, and in the overlapping branch the running offset advances by an amount that depends on what was trimmed; (R13.6) duplicates (equal offset) return without touching the counters; unfragmented packets are returned as the same object. Not decided: permutation invariance, overlap policy, byte equality of the rebuilt payload."
+	flagsThroughMasks(c, c.Rule("R13.9", "T", "ip4defrag tests the IPv4 Flags field only through masks"))
+	listsOnlyFromTheMap(c, c.Rule("R13.10", "T", "the list a fragment is inserted into comes from the map under the packet's key (or is new and stored there)"))
+	adjacencyIsEquality(c, c.Rule("R13.11", "T", "completeness walks compare a fragment's end with the next offset for equality"))
 	r1 := c.Rule("R13.1", "T", "fragment payload length is never Length minus a literal")
 	r2 := c.Rule("R13.2", "T", "a completed flow is forgotten before its datagram is returned")
 	r3 := c.Rule("R13.3", "T", "rebuilt header: Length depends on the header length; fragmentation fields cleared")
@@ -594,4 +597,210 @@ func isFragOff(v ssa.Value) bool {
 	}
 	_, ok := core.LoadsField(v, "FragOffset")
 	return ok
+}
+
+// flagsThroughMasks (R13.9): in ip4defrag the IPv4 Flags field is a bit set
+// (reserved, DF, MF): every comparison on it goes through a mask with a
+// constant.  A raw `Flags == 0` treats a packet with only the reserved bit set
+// as a fragment.
+func flagsThroughMasks(c *core.Ctx, r *core.Rule) {
+	p := c.P
+	n := 0
+	for _, fn := range pkgFunctions(p, "ip4defrag") {
+		k := 0
+		core.Instrs(fn, func(ins ssa.Instruction) {
+			bo, ok := ins.(*ssa.BinOp)
+			if !ok {
+				return
+			}
+			switch bo.Op {
+			case token.EQL, token.NEQ, token.LSS, token.GTR, token.LEQ, token.GEQ:
+			default:
+				return
+			}
+			isFlags := func(v ssa.Value) (raw, masked bool) {
+				v = core.StripConv(v)
+				if a, ok := v.(*ssa.BinOp); ok && a.Op == token.AND {
+					for _, s := range []ssa.Value{a.X, a.Y} {
+						if ld, ok := core.StripConv(s).(*ssa.UnOp); ok && ld.Op == token.MUL {
+							if fa, ok := ld.X.(*ssa.FieldAddr); ok && core.FieldOfAddr(fa).Name() == "Flags" {
+								return false, true
+							}
+						}
+					}
+				}
+				if ld, ok := v.(*ssa.UnOp); ok && ld.Op == token.MUL {
+					if fa, ok := ld.X.(*ssa.FieldAddr); ok && core.FieldOfAddr(fa).Name() == "Flags" {
+						return true, false
+					}
+				}
+				return false, false
+			}
+			for _, s := range []ssa.Value{bo.X, bo.Y} {
+				raw, masked := isFlags(s)
+				if !raw && !masked {
+					continue
+				}
+				n++
+				k++
+				key := fmt.Sprintf("%s/flags-test#%d", core.FnKey(fn), k)
+				if masked {
+					r.OK(key, p.InstrPos(ins), "Flags tested through a mask")
+				} else {
+					r.Violate(key, p.InstrPos(ins), "the IPv4 Flags field is compared as a whole instead of through the More-Fragments / Don't-Fragment mask: a packet that is not a fragment but carries another flag bit (the reserved bit) is taken for a fragment — it is swallowed as a duplicate of a pending datagram's first fragment, or handed back as a rebuilt, different layer", nil)
+				}
+			}
+		})
+	}
+	c.Counts["ip4_flags_tests"] = n
+	if n < 3 {
+		r.Missing("ip4defrag/Flags tests", fmt.Sprintf("only %d found", n))
+	}
+}
+
+// listsOnlyFromTheMap (R13.10): the fragment list a defragmenter inserts into
+// is the one found in its map under the packet's key, or a new list that it
+// stores into the map under that key — never a list remembered elsewhere
+// (a "last used" field): flush and DiscardOlderThan delete from the map, and
+// a remembered list survives them.
+func listsOnlyFromTheMap(c *core.Ctx, r *core.Rule) {
+	p := c.P
+	n := 0
+	for _, pkg := range []string{"ip4defrag", "ip6defrag"} {
+		for _, fn := range pkgFunctions(p, pkg) {
+			core.Instrs(fn, func(ins ssa.Instruction) {
+				call, ok := ins.(*ssa.Call)
+				if !ok {
+					return
+				}
+				f := call.Call.StaticCallee()
+				if f == nil || f.Name() != "insert" || f.Signature.Recv() == nil || len(call.Call.Args) == 0 {
+					return
+				}
+				n++
+				bad := ""
+				seen := map[ssa.Value]bool{}
+				var walk func(v ssa.Value, d int)
+				walk = func(v ssa.Value, d int) {
+					if d > 8 || seen[v] || bad != "" {
+						return
+					}
+					seen[v] = true
+					switch x := v.(type) {
+					case *ssa.Phi:
+						for _, e := range x.Edges {
+							walk(e, d+1)
+						}
+					case *ssa.Extract:
+						walk(x.Tuple, d+1)
+					case *ssa.Lookup:
+						// map lookup: fine
+					case *ssa.Alloc:
+						// a new list: must be stored into a map
+						stored := false
+						for _, ref := range *x.Referrers() {
+							if mu, ok := ref.(*ssa.MapUpdate); ok && mu.Value == ssa.Value(x) {
+								stored = true
+							}
+						}
+						if !stored {
+							bad = "a new list that is not stored into the map"
+						}
+					case *ssa.Const:
+					case *ssa.UnOp:
+						if x.Op == token.MUL {
+							if fa, ok := x.X.(*ssa.FieldAddr); ok {
+								bad = "the list remembered in field " + core.FieldOfAddr(fa).Name()
+								return
+							}
+						}
+						bad = "a list loaded from memory"
+					default:
+						bad = "a list that is not the result of a map lookup"
+					}
+				}
+				walk(call.Call.Args[0], 0)
+				key := core.FnKey(fn) + "/insert-target"
+				if bad == "" {
+					r.OK(key, p.InstrPos(ins), "the list comes from the map (or is new and stored into it)")
+				} else {
+					r.Violate(key, p.InstrPos(ins), "the fragment is inserted into "+bad+": the functions that forget a datagram (flush, DiscardOlderThan) delete it from the map only, so a later fragment with the same key is added to the forgotten list — a discarded datagram is completed after all, or a new datagram that reuses the id is mixed with its bytes", nil)
+				}
+			})
+		}
+	}
+	if n < 1 {
+		r.Missing("defrag/insert calls", "none found")
+	}
+}
+
+// adjacencyIsEquality (R13.11): where the end of a fragment (offset + length)
+// is compared with the offset of the next fragment to decide whether the list
+// is complete, the comparison is an equality: `end < next.offset` accepts
+// overlapping fragments as adjacent and the payloads are concatenated whole.
+func adjacencyIsEquality(c *core.Ctx, r *core.Rule) {
+	p := c.P
+	n := 0
+	for _, pkg := range []string{"ip4defrag", "ip6defrag"} {
+		for _, fn := range pkgFunctions(p, pkg) {
+			k := 0
+			core.Instrs(fn, func(ins ssa.Instruction) {
+				bo, ok := ins.(*ssa.BinOp)
+				if !ok {
+					return
+				}
+				switch bo.Op {
+				case token.EQL, token.NEQ, token.LSS, token.GTR, token.LEQ, token.GEQ:
+				default:
+					return
+				}
+				// one side: load of .offset of a value loaded from .next ; other side: an ADD with a load of .offset
+				nextOffset := func(v ssa.Value) bool {
+					ld, ok := core.StripConv(v).(*ssa.UnOp)
+					if !ok || ld.Op != token.MUL {
+						return false
+					}
+					fa, ok := ld.X.(*ssa.FieldAddr)
+					if !ok || core.FieldOfAddr(fa).Name() != "offset" {
+						return false
+					}
+					l2, ok := fa.X.(*ssa.UnOp)
+					if !ok || l2.Op != token.MUL {
+						return false
+					}
+					f2, ok := l2.X.(*ssa.FieldAddr)
+					return ok && core.FieldOfAddr(f2).Name() == "next"
+				}
+				endExpr := func(v ssa.Value) bool {
+					a, ok := core.StripConv(v).(*ssa.BinOp)
+					if !ok || a.Op != token.ADD {
+						return false
+					}
+					for _, s := range []ssa.Value{a.X, a.Y} {
+						if ld, ok := core.StripConv(s).(*ssa.UnOp); ok && ld.Op == token.MUL {
+							if fa, ok := ld.X.(*ssa.FieldAddr); ok && core.FieldOfAddr(fa).Name() == "offset" {
+								return true
+							}
+						}
+					}
+					return false
+				}
+				if !(nextOffset(bo.X) && endExpr(bo.Y) || nextOffset(bo.Y) && endExpr(bo.X)) {
+					return
+				}
+				n++
+				k++
+				key := fmt.Sprintf("%s/adjacency#%d", core.FnKey(fn), k)
+				if bo.Op == token.EQL || bo.Op == token.NEQ {
+					r.OK(key, p.InstrPos(ins), "end of a fragment is compared with the next offset for equality")
+				} else {
+					r.Violate(key, p.InstrPos(ins), "the end of a fragment is compared with the next fragment's offset by an ordering instead of for equality: fragments that overlap are accepted as adjacent, the list is declared complete and the payloads are concatenated whole — the datagram returned is longer than the original and has bytes at wrong offsets", nil)
+				}
+			})
+		}
+	}
+	c.Counts["adjacency_tests"] = n
+	if n < 1 {
+		r.Missing("defrag/adjacency tests", "no comparison of offset+length with next.offset found (ip6defrag was confirmed by reading)")
+	}
 }
